@@ -3,3 +3,4 @@ pub mod c08;
 pub mod c16;
 pub mod c09;
 pub mod c10;
+pub mod c18;
